@@ -306,8 +306,11 @@ where
     )?;
 
     let mut last_sum_sq = sum_sq;
-    sum_sq += N::from_u8(2).unwrap().real() * tol;
-    while (last_sum_sq - sum_sq).abs() > tol {
+    // Always iterate at least once (adding 2 * tol to the sum to get into the loop is
+    // absorbed by rounding when tol is below the rounding unit of the sum)
+    let mut first_iteration = true;
+    while first_iteration || (last_sum_sq - sum_sq).abs() > tol {
+        first_iteration = false;
         last_sum_sq = sum_sq;
         // Get right side of iteration equation
         let diff = &ys - &evaluation;
@@ -440,8 +443,11 @@ where
     )?;
 
     let mut last_sum_sq = sum_sq;
-    sum_sq += N::from_u8(2).unwrap().real() * tol;
-    while (last_sum_sq - sum_sq).abs() > tol {
+    // Always iterate at least once (adding 2 * tol to the sum to get into the loop is
+    // absorbed by rounding when tol is below the rounding unit of the sum)
+    let mut first_iteration = true;
+    while first_iteration || (last_sum_sq - sum_sq).abs() > tol {
+        first_iteration = false;
         last_sum_sq = sum_sq;
         // Get right side of iteration equation
         let diff = &ys - &evaluation;
